@@ -235,6 +235,9 @@ def run(ctx):
             adef = chain_def(n, sigma, rng.random() < 0.5)
             bdef = renamed_copy(rng, adef, flip=rng.choice([None, n - 1, n - 2, 0]))
             tag = "long_chain"
+        if i % 6 == 1:
+            # rows keyed by names that are not states (-1, -2, ...: the ids the product picks for its implicit trap)
+            adef, bdef, tag = gen.add_dfa_stray_rows(rng, adef), gen.add_dfa_stray_rows(rng, bdef), tag + "_stray_rows"
         check_pair(ctx, adef, bdef, tag)
         if rng.random() < 0.5:
             check_pair(ctx, bdef, adef, tag + "_swapped")
